@@ -281,12 +281,23 @@ class Normaliser:
 
     def _classify_helpers(self):
         """local functions that are only called by name with positional arguments"""
-        self.stmt_helpers, self.expr_helpers = {}, {}
+        self.stmt_helpers, self.expr_helpers, self.gen_helpers = {}, {}, {}
         f = self.f
         for name, d in self.local_defs.items():
             if d is None or d.decorator_list or d.args.vararg or d.args.kwarg or d.args.defaults or d.args.kwonlyargs or d.args.posonlyargs:
                 continue
-            if any(isinstance(x, (ast.Yield, ast.YieldFrom, ast.Nonlocal, ast.Global)) for x in ast.walk(d)):
+            if any(isinstance(x, (ast.Nonlocal, ast.Global)) for x in ast.walk(d)):
+                continue
+            if any(isinstance(x, (ast.Yield, ast.YieldFrom)) for x in ast.walk(d)):
+                # a generator helper: usable only as `yield from h(..)`, and only when it has no return
+                calls_g = [n for n in ast.walk(f) if isinstance(n, ast.Call) and isinstance(n.func, ast.Name) and n.func.id == name]
+                yf = [n for n in ast.walk(f) if isinstance(n, ast.YieldFrom) and any(n.value is c for c in calls_g)]
+                uses_g = [n for n in ast.walk(f) if isinstance(n, ast.Name) and n.id == name and isinstance(n.ctx, ast.Load)]
+                if calls_g and len(yf) == len(calls_g) == len(uses_g) and not any(isinstance(x, ast.Return) for x in ast.walk(d)) and \
+                        not d.decorator_list and all(not c.keywords and len(c.args) == len(d.args.args) for c in calls_g) and \
+                        not any(any(x is c for x in ast.walk(d)) for c in calls_g):
+                    self.gen_helpers[name] = (d, [b for b in d.body if not (isinstance(b, ast.Expr) and isinstance(b.value, ast.Constant)
+                                                                             and isinstance(b.value.value, str))])
                 continue
             if self.assign_count.get(name, 0) != 0:
                 continue
@@ -443,6 +454,9 @@ class Normaliser:
 
             def visit_Subscript(self, n):
                 self.generic_visit(n)
+                if isinstance(n.value, ast.Tuple) and len(n.value.elts) == 2 and isinstance(n.slice, ast.Call) and _src(n.slice.func) == "bool" \
+                        and len(n.slice.args) == 1 and all(isinstance(x, ast.Constant) for x in n.value.elts):
+                    return ast.IfExp(test=n.slice.args[0], body=n.value.elts[1], orelse=n.value.elts[0])
                 if not isinstance(n.slice, (ast.Slice, ast.Tuple)):
                     n.slice = _Arith().visit(n.slice)
                 return n
@@ -472,6 +486,16 @@ class Normaliser:
                         yield v
             parts = [self.cond(v, neg) for v in flat(test)]
             return "(" + (" and " if is_and else " or ").join(parts) + ")"
+        if isinstance(test, ast.Compare) and len(test.ops) == 1 and isinstance(test.ops[0], (ast.Gt, ast.NotEq)) and \
+                isinstance(test.comparators[0], ast.Constant) and test.comparators[0].value == 0 and isinstance(test.left, ast.Call) and \
+                _src(test.left.func) == "len" and len(test.left.args) == 1 and isinstance(test.left.args[0], ast.ListComp) and \
+                len(test.left.args[0].generators) == 1 and len(test.left.args[0].generators[0].ifs) == 1 and \
+                _src(test.left.args[0].elt) == _src(test.left.args[0].generators[0].target):
+            lc = test.left.args[0]
+            g = lc.generators[0]
+            anyc = ast.Call(func=ast.Name(id="any", ctx=ast.Load()),
+                            args=[ast.ListComp(elt=g.ifs[0], generators=[ast.comprehension(target=g.target, iter=g.iter, ifs=[], is_async=0)])], keywords=[])
+            return self.cond(ast.fix_missing_locations(anyc), neg)
         if isinstance(test, ast.Compare) and len(test.ops) == 1:
             op = type(test.ops[0])
             if neg:
@@ -487,6 +511,17 @@ class Normaliser:
             return "%s %s %s" % (l, OPT[op], r)
         if isinstance(test, ast.Constant) and isinstance(test.value, bool):
             return str(test.value != neg)
+        if isinstance(test, ast.Call) and _src(test.func) in ("all", "any") and len(test.args) == 1 and not test.keywords and \
+                isinstance(test.args[0], (ast.ListComp, ast.GeneratorExp)) and len(test.args[0].generators) == 1 and \
+                (neg != (_src(test.func) == "all")):
+            # not all(P ..) -> any(not P ..) ;  all(P ..) stays ; not any(P) -> all(not P) is rewritten to `not any(P)` form below
+            g = test.args[0]
+            if _src(test.func) == "all" and neg:
+                inner = ast.ListComp(elt=ast.parse(self.cond(g.elt, True), mode="eval").body if True else g.elt, generators=g.generators)
+                try:
+                    return "any(%s)" % self._text(inner)
+                except Exception:
+                    pass
         t = self._text(test)
         return ("not (%s)" % t) if neg else t
 
@@ -553,7 +588,7 @@ class Normaliser:
             # trailing no-op exits
             if last and at_end and ((isinstance(s, ast.Continue) and in_loop) or (isinstance(s, ast.Return) and s.value is None and not in_loop)):
                 break
-            if isinstance(s, ast.FunctionDef) and (s.name in self.stmt_helpers or s.name in self.expr_helpers):
+            if isinstance(s, ast.FunctionDef) and (s.name in self.stmt_helpers or s.name in self.expr_helpers or s.name in self.gen_helpers):
                 i += 1
                 continue
             # x = [] ; for ..: x.append(e)      ==      x = [e for ..]
@@ -574,6 +609,26 @@ class Normaliser:
                 if got is not None:
                     stmts = stmts[:i] + got
                     continue
+            if isinstance(s, ast.Assign) and len(s.targets) == 1 and isinstance(s.targets[0], ast.Name) and rest:
+                nm = s.targets[0].id
+                nx = rest[0]
+                if isinstance(nx, ast.Assign) and len(nx.targets) == 1 and isinstance(nx.targets[0], ast.Name) and nx.targets[0].id == nm and \
+                        self.pure(s.value) and any(isinstance(n, ast.Name) and n.id == nm for n in ast.walk(nx.value)) and \
+                        sum(1 for n in ast.walk(nx.value) if isinstance(n, ast.Name) and n.id == nm) == 1:
+                    merged = ast.Assign(targets=nx.targets, value=_Sub({nm: s.value}).visit(copy.deepcopy(nx.value)))
+                    ast.copy_location(merged, nx)
+                    ast.fix_missing_locations(merged)
+                    self.assign_count[nm] = max(1, self.assign_count.get(nm, 0) - 1)
+                    stmts = stmts[:i] + [merged] + rest[1:]
+                    continue
+                if isinstance(s.value, ast.GeneratorExp) and isinstance(nx, ast.Expr) and isinstance(nx.value, ast.YieldFrom) and \
+                        isinstance(nx.value.value, ast.Name) and nx.value.value.id == nm and self.assign_count.get(nm, 0) == 1 and \
+                        sum(1 for n in ast.walk(self.f) if isinstance(n, ast.Name) and n.id == nm) == 2:
+                    new = ast.Expr(value=ast.YieldFrom(value=s.value))
+                    ast.copy_location(new, nx)
+                    ast.fix_missing_locations(new)
+                    stmts = stmts[:i] + [new] + rest[1:]
+                    continue
             # pure temporaries disappear
             if isinstance(s, ast.Assign) and len(s.targets) == 1 and isinstance(s.targets[0], ast.Name):
                 name = s.targets[0].id
@@ -583,6 +638,25 @@ class Normaliser:
                     env[name] = v
                     i += 1
                     continue
+            if isinstance(s, ast.For) and not s.orelse:
+                b = self._strip_doc(s.body)
+                if len(b) == 1 and isinstance(b[0], ast.If) and not b[0].orelse and len(self._strip_doc(b[0].body)) == 1 and \
+                        isinstance(self._strip_doc(b[0].body)[0], ast.Raise) and self.pure(s.iter) and self.pure(b[0].test):
+                    r = self._strip_doc(b[0].body)[0]
+                    tv = set(_names_stored(s.target))
+                    if not any(isinstance(n, ast.Name) and n.id in tv for n in ast.walk(r)) and \
+                            not any(isinstance(n, ast.Name) and n.id in tv for x in rest for n in ast.walk(x)):
+                        anyc = ast.Call(func=ast.Name(id="any", ctx=ast.Load()),
+                                        args=[ast.ListComp(elt=b[0].test, generators=[ast.comprehension(target=s.target, iter=s.iter, ifs=[], is_async=0)])],
+                                        keywords=[])
+                        new = ast.If(test=anyc, body=[r], orelse=[])
+                        ast.copy_location(new, s)
+                        ast.fix_missing_locations(new)
+                        for x in tv:
+                            self.assign_count[x] = max(0, self.assign_count.get(x, 0) - 1)
+                            self.loop_bound[x] = max(0, self.loop_bound.get(x, 0) - 1)
+                        stmts = stmts[:i] + [new] + rest
+                        continue
             # yield from (E for x in X [if c])   ==   for x in X: [if c:] yield E
             if isinstance(s, ast.Expr) and isinstance(s.value, ast.YieldFrom):
                 g = s.value.value
@@ -679,19 +753,29 @@ class Normaliser:
                 continue
             if not (isinstance(st, ast.For) and not st.orelse and st.body):
                 return None
-            first = self._strip_doc(st.body)[0]
-            if not (isinstance(first, ast.AugAssign) and isinstance(first.op, ast.Add) and isinstance(first.target, ast.Name) and
-                    first.target.id == c and isinstance(first.value, ast.Constant) and first.value.value == 1):
-                return None
+            def is_inc(x):
+                return isinstance(x, ast.AugAssign) and isinstance(x.op, ast.Add) and isinstance(x.target, ast.Name) and \
+                    x.target.id == c and isinstance(x.value, ast.Constant) and x.value.value == 1
+            sb = self._strip_doc(st.body)
+            first = sb[0]
+            at_end_inc = False
+            if not is_inc(first):
+                # incremented as the last thing of every iteration (no continue in the body): the value seen is start + index
+                if len(sb) > 1 and is_inc(sb[-1]) and not any(isinstance(x, ast.Continue) for b_ in sb for x in ast.walk(b_)):
+                    first, at_end_inc = sb[-1], True
+                else:
+                    return None
             if any(isinstance(n, ast.Name) and n.id == c for n in ast.walk(st.iter)) or \
                     any(isinstance(n, ast.Name) and n.id == c for x in rest[j + 1:] for n in ast.walk(x)):
                 return None
             if not all(self.bound_once(n.id) and n.id not in self.mutated for n in ast.walk(k) if isinstance(n, ast.Name) and n.id != "self"):
                 return None
-            body = self._strip_doc(st.body)[1:]
+            body = sb[:-1] if at_end_inc else sb[1:]
             start = ast.BinOp(left=copy.deepcopy(k), op=ast.Add(), right=ast.Constant(value=1))
             if isinstance(k, ast.Constant):
                 start = ast.Constant(value=k.value + 1)
+            if at_end_inc:
+                start = copy.deepcopy(k)
             enum = ast.Call(func=ast.Name(id="enumerate", ctx=ast.Load()), args=[st.iter], keywords=[ast.keyword(arg="start", value=start)])
             new = ast.For(target=ast.Tuple(elts=[ast.Name(id=c, ctx=ast.Store()), st.target], ctx=ast.Store()), iter=enum, body=body or [ast.Pass()], orelse=[])
             ast.copy_location(new, st)
@@ -731,6 +815,12 @@ class Normaliser:
                 if elt is None and isinstance(b, ast.If) and len(b.body) == 1 and len(b.orelse) == 1 and \
                         appended(b.body[0]) is not None and appended(b.orelse[0]) is not None:
                     elt = ast.IfExp(test=b.test, body=appended(b.body[0]), orelse=appended(b.orelse[0]))
+                if elt is None and not ifs and isinstance(b, ast.Expr) and isinstance(b.value, ast.Call) and isinstance(b.value.func, ast.Attribute) \
+                        and _src(b.value.func.value) == name and b.value.func.attr == "extend" and len(b.value.args) == 1 and self.pure(b.value.args[0]) \
+                        and not any(isinstance(n, (ast.Name, ast.Attribute)) and _src(n) == name for n in ast.walk(b.value.args[0])):
+                    xv = "_x%d" % (len(gens))
+                    gens.append((ast.Name(id=xv, ctx=ast.Store()), b.value.args[0]))
+                    elt = ast.Name(id=xv, ctx=ast.Load())
                 if elt is None or any(isinstance(n, (ast.Name, ast.Attribute)) and _src(n) == name for n in ast.walk(st.iter)) or \
                         not all(self.pure(c) for c in ifs) or not self.pure(st.iter):
                     return None
@@ -760,9 +850,14 @@ class Normaliser:
             call, kind = s.value, "assign"
         elif isinstance(s, ast.Return) and isinstance(s.value, ast.Call):
             call, kind = s.value, "return"
-        if call is None or not isinstance(call.func, ast.Name) or call.func.id not in self.stmt_helpers:
+        if isinstance(s, ast.Expr) and isinstance(s.value, ast.YieldFrom) and isinstance(s.value.value, ast.Call) and \
+                isinstance(s.value.value.func, ast.Name) and s.value.value.func.id in self.gen_helpers:
+            call, kind = s.value.value, "expr"
+            d, body = self.gen_helpers[call.func.id]
+        elif call is None or not isinstance(call.func, ast.Name) or call.func.id not in self.stmt_helpers:
             return None
-        d, body = self.stmt_helpers[call.func.id]
+        else:
+            d, body = self.stmt_helpers[call.func.id]
         has_ret = bool(body) and isinstance(body[-1], ast.Return) and body[-1].value is not None
         if kind in ("assign", "return") and not has_ret:
             return None
@@ -782,10 +877,13 @@ class Normaliser:
             for n in _walk_no_defs(b):
                 pass
             locals_ |= set(_names_stored(b))
+        ren = {n: "%s__%s" % (n, call.func.id) for n in locals_}
         for n in locals_:
             if n in params:
-                return None           # a parameter rebound inside the helper: keep the call
-        ren = {n: "%s__%s" % (n, call.func.id) for n in locals_}
+                # a parameter rebound inside the helper is a local of its own, initialised with the argument
+                arg = mapping.pop(n)
+                pre.append(ast.Assign(targets=[ast.Name(id=ren[n], ctx=ast.Store())], value=arg))
+                self.assign_count[ren[n]] = self.assign_count.get(ren[n], 0) + 1
         for n, m in ren.items():
             self.assign_count[m] = self.assign_count.get(m, 0) + self._count_in(d, n)
             lb = sum(1 for x in _walk_no_defs(d) if isinstance(x, (ast.For, ast.comprehension)) and n in _names_stored(x.target))
